@@ -114,6 +114,12 @@ fn format_extraction<TCompilationProfile: CompilationProfile>(
         let new_line_behavior = token.item.line_behavior;
         let indent_change = token.item.indent_change;
 
+        if !new_line_behavior.should_keep() {
+            // a removed token (a comma) leaves no trace in the output: it must not
+            // trigger a line break or swallow the space between its neighbours
+            continue;
+        }
+
         if let IndentChange::Dedent = indent_change {
             indent -= 1;
         }
